@@ -45,7 +45,8 @@ Definition action_failures (c : claim) : list ucode :=
 (* verify_internal: "check update manifest rules" and its else branch *)
 Definition update_rule_failures (c : claim) : list ucode :=
   if c_update c then
-    action_failures c
+    (if negb (Nat.eqb (c_hashes c) 0) then [UpdateInvalid] else [])   (* hard binding inside an update manifest (fix 37f0723a3) *)
+    ++ action_failures c
     ++ (if Nat.ltb UPDATE_THUMBNAIL_LIMIT (c_thumbs c) then [UpdateInvalid] else [])   (* count() > 1 *)
     ++ (match parent_count c with
         | O => [UpdateWrongParents]
